@@ -97,6 +97,47 @@ Proof.
   - apply (PkgOK_same_obs xml bytes kid par entries mime fs d); [exact H|exact A2|apply A3].
 Qed.
 
+(* ---------- merge_styles_from: edits of content / styles, then one import per referenced image ---------- *)
+Lemma set_tree_opt_pkgok : forall fs n ox (d : document), WFd fs d -> PkgOK fs d -> is_xml n = true -> n <> MANIFEST ->
+  PkgOK fs (fst (d_set_tree_opt xml bytes kid par FIXED fs n ox d)).
+Proof.
+  intros fs n ox d W H Xn Hn. unfold d_set_tree_opt. destruct ox as [x'|]; [|exact H].
+  pose proof (edit_pkgok xml bytes kid par entries mime fs n x' d W H Xn Hn) as E. cbn zeta in E.
+  destruct (d_tree xml bytes kid par FIXED fs n d) as [d' [x|]]; exact E.
+Qed.
+
+Lemma imports_pkgok : forall fs (imgs : list (name * bytes * mtype)) (acc : document * bool), WFd fs (fst acc) -> PkgOK fs (fst acc) ->
+  Forall (fun e => is_dir (fst (fst e)) = false /\ fst (fst e) <> MIMETYPE /\ fst (fst e) <> MANIFEST /\ typed1 (fst (fst e)) (snd e) = true) imgs ->
+  PkgOK fs (fst (fold_left (fun (acc : document * bool) e =>
+               let '(d', ok) := d_import xml bytes kid par entries with_entries FIXED fs (fst (fst e)) (snd (fst e)) (snd e) (fst acc) in (d', snd acc && ok)) imgs acc)).
+Proof.
+  intros fs. induction imgs as [|e imgs IH]; intros acc W H Hf; cbn [fold_left]; [exact H|].
+  inversion Hf as [|a l [O1 [O2 [O3 O4]]] Hl]; subst.
+  pose proof (d_import_wf xml bytes kid par entries with_entries fs (fst (fst e)) (snd (fst e)) (snd e) (fst acc) W) as W1.
+  pose proof (import_pkgok xml bytes kid par entries with_entries mime entries_with fs (fst (fst e)) (snd (fst e)) (snd e) (fst acc) W H O1 O2 O3 O4) as H1.
+  destruct (d_import xml bytes kid par entries with_entries FIXED fs (fst (fst e)) (snd (fst e)) (snd e) (fst acc)) as [d' ok].
+  apply IH; assumption.
+Qed.
+
+Lemma merge_pkgok : forall fs sc sx imgs (d : document), WFd fs d -> PkgOK fs d ->
+  Forall (fun e => is_dir (fst (fst e)) = false /\ fst (fst e) <> MIMETYPE /\ fst (fst e) <> MANIFEST /\ typed1 (fst (fst e)) (snd e) = true) imgs ->
+  PkgOK fs (fst (d_merge xml bytes kid par entries with_entries FIXED fs sc sx imgs d)).
+Proof.
+  intros fs sc sx imgs d W H Hf. unfold d_merge.
+  pose proof (cache_wf xml bytes kid fs MANIFEST d W is_xml_MANIFEST) as W0.
+  assert (H0 : PkgOK fs (mkD (cont _ _ d) (xp_cache xml MANIFEST (xps _ _ d)))).
+  { apply (PkgOK_same_obs xml bytes kid par entries mime fs d); [exact H|reflexivity|].
+    unfold Pkgproof.dX. cbn [xps cont]. rewrite lookup_xp_cache. unfold Pkgproof.dB. cbn [cont].
+    destruct (lookup MANIFEST (xps _ _ d)) as [v|]; [reflexivity|]. rewrite Z.eqb_refl. reflexivity. }
+  pose proof (set_tree_opt_wf xml bytes kid par fs CONTENT sc _ W0 eq_refl) as W1.
+  pose proof (set_tree_opt_pkgok fs CONTENT sc _ W0 H0 eq_refl ltac:(discriminate)) as H1.
+  destruct (d_set_tree_opt xml bytes kid par FIXED fs CONTENT sc _) as [d1 ok1]. cbn [fst] in *.
+  pose proof (set_tree_opt_wf xml bytes kid par fs STYLES sx _ W1 eq_refl) as W2.
+  pose proof (set_tree_opt_pkgok fs STYLES sx _ W1 H1 eq_refl ltac:(discriminate)) as H2.
+  destruct (d_set_tree_opt xml bytes kid par FIXED fs STYLES sx d1) as [d2 ok2]. cbn [fst] in *.
+  apply (imports_pkgok fs imgs (d2, ok1 && ok2) W2 H2 Hf).
+Qed.
+
 (* ---------- the alphabet: what the API guarantees about the arguments ---------- *)
 Definition ok04 (s : fsys * document) (o : op xml bytes) : Prop :=
   match o with
@@ -105,6 +146,7 @@ Definition ok04 (s : fsys * document) (o : op xml bytes) : Prop :=
   | ODelPart n => is_dir n = false /\ n <> MIMETYPE
   | OAddFile n _ m | OImport n _ m => is_dir n = false /\ n <> MIMETYPE /\ n <> MANIFEST /\ typed1 n m = true
   | ONew _ m' => m' <> NOMT
+  | OMerge _ _ imgs => Forall (fun e => is_dir (fst (fst e)) = false /\ fst (fst e) <> MIMETYPE /\ fst (fst e) <> MANIFEST /\ typed1 (fst (fst e)) (snd e) = true) imgs
   | _ => True
   end.
 
@@ -115,7 +157,7 @@ Proof.
   intros [fs d] o [I [H G]] Hok.
   pose proof (step_inv xml bytes kid ser par pretty stamp entries with_entries kids mime mime_bytes rdf0 par_ser (fs, d) o I) as I'.
   split; [exact I'|]. clear I'. destruct I as [F W]. cbn [fst snd] in *. unfold Package.step.
-  destruct o as [p b|p m'|n|n|n x'|n b|n|n b m|n b m|t pk pty|]; cbn [ok04 fst snd] in Hok.
+  destruct o as [p b|p m'|n|n|n x'|n b|n|n b m|n b m|t pk pty| |sc sx imgs]; cbn [ok04 fst snd] in Hok.
   - destruct (c_open bytes kid fs p b) as [c|] eqn:O; cbn [fst snd]; [|split; assumption].
     split; [apply (G p b c O)|exact G].
   - destruct (c_new xml bytes kid ser par entries with_entries mime_bytes FIXED fs p m') as [c|] eqn:O; cbn [fst snd]; [|split; assumption].
@@ -149,6 +191,8 @@ Proof.
                   fs d t pk pty (conj F W) H G) as E. cbn zeta in E.
     destruct (d_save fs d t pk pty) as [[fs' d'] ok]. cbn [fst snd] in *. exact E.
   - cbn [fst snd]. split; [|exact G]. apply (clone_pkgok fs d F W H).
+  - pose proof (merge_pkgok fs sc sx imgs d W H Hok) as E.
+    destruct (d_merge xml bytes kid par entries with_entries FIXED fs sc sx imgs d) as [d' ok]. cbn [fst snd] in *. split; assumption.
 Qed.
 
 (* histories whose operations respect the alphabet *)
